@@ -267,6 +267,13 @@ def run(ctx):
                         pth = ctx.path(hist + name + suffix)
                         write(pth, pcs, buffer)
                         outs[name] = read_bytes(pth)
+                    # a modified copy is made with bnp.replace (and thrown away); the table read back is written afterwards: it still writes its own records
+                    intf = next((f_ for f_ in ("start", "position", "pos1") if hasattr(back, f_)), None)
+                    if intf is not None:
+                        bnp.replace(back, **{intf: np.asarray(getattr(back, intf)) + 5})
+                        pth = ctx.path(hist + "after-replace" + suffix)
+                        write(pth, [back], buffer)
+                        outs["original-after-a-modified-copy-was-made"] = read_bytes(pth)
                 except Exception as e:
                     if not originates_in_library(e):
                         raise
@@ -278,7 +285,7 @@ def run(ctx):
                 exp_f = header + "".join(exp_recs[i] for i in order)
                 exp_r = header + "".join(exp_recs[::-1])
                 lenient_fmt = fname in ("fastaw",)     # wrapped FASTA re-wraps; compared through the single write only
-                for name, exp in (("successive", single), ("concatenated", single), ("filter-successive", exp_f), ("filter-concatenated", exp_f), ("reversed", exp_r)):
+                for name, exp in (("successive", single), ("concatenated", single), ("filter-successive", exp_f), ("filter-concatenated", exp_f), ("reversed", exp_r)) + ((("original-after-a-modified-copy-was-made", single),) if "original-after-a-modified-copy-was-made" in outs else ()):
                     if exp is not single and compare_bytes(fmt, single, exp_recs, header) is not None:
                         continue
                     if exp is not single:
